@@ -709,14 +709,19 @@ class Step(Node):
         # so the delete fires `step_need_count_del` like any other delete
         # instead of being silently skipped by `REPLACE`'s implicit conflict-delete
         # (which never fires delete triggers).
-        # A detached step can be declared again while its command is still running.
-        # The command keeps running, so the row stays RUNNING (and keeps its open holds):
+        # A detached step can be declared again while its command is still running,
+        # or while its hashes are being checked.
+        # That job goes on, so the row keeps its state (and its open holds):
         # a row that is PENDING would be dispatched a second time next to it.
-        # The executor notices at completion that the declaration changed and runs the step again.
+        # The executor notices when the job ends that the step was declared again,
+        # discards the verdict and lets the step run for the new declaration.
         old_row = self.db.execute(
             "SELECT state, _holding FROM step WHERE node = :node", {"node": self.i}
         ).fetchone()
-        still_running = old_row is not None and old_row[0] == StepState.RUNNING.value
+        still_running = old_row is not None and old_row[0] in (
+            StepState.RUNNING.value,
+            StepState.CHECKING.value,
+        )
         if still_running:
             self.graph.declared_again.add(self.i)
         self.db.execute("DELETE FROM step WHERE node = :node", {"node": self.i})
@@ -765,7 +770,7 @@ class Step(Node):
             {
                 "node": self.i,
                 "need": need.value,
-                "state": (StepState.RUNNING if still_running else StepState.PENDING).value,
+                "state": old_row[0] if still_running else StepState.PENDING.value,
                 "holding": old_row[1] if still_running else 0,
                 "duration": 1.0 if duration is None else duration,
                 "shell": int(shell),
@@ -1265,9 +1270,14 @@ class Step(Node):
         """Iterate over input files of this step."""
         yield from self._paths("source", dynamic=dynamic)
 
-    def out_paths(self, *, dynamic: bool | None = None) -> Iterator[PathRecord]:
-        """Iterate over output files of this step."""
-        yield from self._paths("sink", dynamic=dynamic, states=FILE_STATES_BY_ROLE[FileRole.OUTPUT])
+    def out_paths(self, *, dynamic: bool | None = None, raw: bool = False) -> Iterator[PathRecord]:
+        """Iterate over output files of this step.
+
+        With `raw`, former outputs that were detached without this step are included (see `_paths`).
+        """
+        yield from self._paths(
+            "sink", raw=raw, dynamic=dynamic, states=FILE_STATES_BY_ROLE[FileRole.OUTPUT]
+        )
 
     def vol_paths(self, *, dynamic: bool | None = None) -> Iterator[PathRecord]:
         """Iterate over volatile output files of this step."""
